@@ -1,6 +1,6 @@
 (** C03 - Bin-packing results are feasible packings of exactly the input items.
     Statements only; proofs in Proofs/PackingProofs.v (fit heuristics) and Proofs/BCProofs.v (bin completion). *)
-From Prtpy Require Import Base.Prelude Model.Binner Model.Packing Spec.Partition Proofs.PackingProofs.
+From Prtpy Require Import Base.Prelude Model.Binner Model.Packing Spec.Partition Proofs.PackingProofs Model.BinCompletion Model.BinCompletionNamed Proofs.BCProofs Proofs.BCNamedProofs.
 
 (** first-fit: every item exactly once, no sum above the bin size, recorded sums are the totals *)
 Theorem C03_ff_packing : forall (A : Type) (valueof : A -> Z) (C : Z) (items : list A) (b : bins A),
@@ -58,3 +58,16 @@ Theorem C03_bfd_nonempty : forall (A : Type) (valueof : A -> Z) (C : Z) (items :
 Proof. exact @bfd_nonempty. Qed.
 Print Assumptions C03_bfd_nonempty.
 
+(** bin completion: a feasible packing of exactly the non-zero items, no empty bin (value level, and on named items) *)
+Theorem C03_bc_packing : forall (C : Z) (fuel : nat) (items : list Z) (b : zbins),
+  Forall (fun v : Z => 0 <= v) items ->
+  bin_completion true C fuel items = Ok b -> is_packing zid C (filter nonzero items) b /\ all_nonempty b.
+Proof. exact bc_packing_strong. Qed.
+Print Assumptions C03_bc_packing.
+
+Theorem C03_bc_named_packing : forall (A : Type) (valueof : A -> Z) (C : Z) (fuel : nat) (items : list A) (b : bins A),
+  Forall (fun x : A => 0 <= valueof x) items ->
+  bin_completion_named valueof true C fuel items = Ok b ->
+  is_packing valueof C (filter (nonzero_item valueof) items) b /\ all_nonempty b.
+Proof. exact @bc_named_packing. Qed.
+Print Assumptions C03_bc_named_packing.
